@@ -90,12 +90,18 @@ def big_sample_burst(r, goroutines, n):
     return [["m:%d" % r.choice([3000000, 2500000, 1234567]) for _ in range(n)] for _ in range(goroutines)]
 
 
-def run_bursts(ctx, bursts, race=False):
+def run_bursts(ctx, bursts, race=False, impl_only=False):
     lines = [json.dumps({"goroutines": gs}) for gs in bursts]
     if race:
         rc, impl, err = core.run_impl("stats", lines, timeout=1800, race=True)
         if "DATA RACE" in err:
             ctx.violation("the race detector reports a data race in the stats package", {"domain": "stats", "stderr": err[-1500:]})
+        model = impl
+    elif impl_only:
+        # very large workloads: judged against the events that happened (the oracle), not replayed on the model
+        rc, impl, err = core.run_impl("stats", lines, timeout=1800)
+        if rc != 0 or len(impl) != len(lines):
+            raise RuntimeError("harness stats: exit %s, %d/%d lines\n%s" % (rc, len(impl), len(lines), err[-1500:]))
         model = impl
     else:
         impl, model = ctx.pair("stats", lines, timeout=1800)
@@ -140,15 +146,33 @@ def pipeline_gauges(ctx, n):
             ctx.violation("routine gauges after the stop (%s, %d workers per stage): %s" % (scn["stop"]["when"], w, a), rp)
 
 
+def start_stop_gauges(ctx, n):
+    """a stage started and stopped at once (the stop request arrives while some of its worker goroutines have not run yet): once Stop()
+    has returned no worker is alive, so the routine gauge is 0"""
+    r = ctx.rng
+    for k in range(n):
+        op = {"op": "startstop", "stage": ["pre", "post"][k % 2], "workers": r.choice([32, 128, 512]), "afterUs": r.choice([0, 0, 5, 50, 500])}
+        rc, out, err = core.run_impl("stats", [json.dumps(op)], timeout=120)
+        ctx.case("startstop" + json.dumps(op), True)
+        ctx.count("start-stop-runs")
+        if not out or not out[0].startswith("gauge="):
+            ctx.violation("a stage started and stopped at once: %s" % ((out[0] if out else err[-300:])[:300]), {"domain": "stats-startstop", "op": op}); continue
+        if out[0] != "gauge=0":
+            ctx.violation("the %sprocessor was started with %d workers and stopped at once; Stop() returned (no worker alive) but its routine gauge reads %s" % (
+                op["stage"], op["workers"], out[0].split("=")[1]), {"domain": "stats-startstop", "op": op})
+
+
 def run(ctx):
     r = ctx.rng
+    start_stop_gauges(ctx, 40 if ctx.thorough() else 6)
     pipeline_gauges(ctx, 24 if ctx.thorough() else 4)
     n = 120 if ctx.thorough() else 12
     bursts = [gen_burst(r, r.choice([4, 8, 16]), r.choice([200, 1000, 3000])) for _ in range(n)]
     bursts.insert(0, [["u", "s", "h:200", "m:7", "g+:pre"], ["u", "h:200", "g+:pre", "g-:pre", "ur", "ug"]])
-    bursts += [fresh_key_burst(r, 8, 12000) for _ in range(8 if ctx.thorough() else 3)]
+    bursts += [fresh_key_burst(r, 8, 1500)]
     bursts += [big_sample_burst(r, 8, 400) for _ in range(3 if ctx.thorough() else 1)]
     run_bursts(ctx, bursts)
+    run_bursts(ctx, [fresh_key_burst(r, 8, 12000) for _ in range(8 if ctx.thorough() else 3)], impl_only=True)
     if ctx.thorough():
         ok, msg = core.build_harness(race=True)
         if ok:
@@ -163,6 +187,11 @@ def run(ctx):
 
 def replay(ctx, doc):
     rp = doc.get("replay", doc)
+    if rp.get("domain") == "stats-startstop":
+        rc, out, err = core.run_impl("stats", [json.dumps(rp["op"])], timeout=120)
+        if not out or out[0] != "gauge=0":
+            ctx.violation("replay: %s" % (out[0] if out else err[-200:]), rp)
+        return
     if "goroutines" in rp:
         run_bursts(ctx, [rp["goroutines"]])
     elif "scenario" in rp:
